@@ -268,8 +268,95 @@ mutant("C18", "reference-date-defaults-to-first-date", "src/darsia/image/image.p
 """, "metadata reports the default reference date: an explicit reference date is lost on save")
 
 
+# ------------------------------------------------------------------ benign changes (the property still holds: checks must stay quiet)
+B = []
+
+
+def benign(pid, name, path, old, new, note):
+    B.append((pid, name, path, old, new, note))
+
+
+benign("C03", "memo-of-resized-volumes-from-native", "src/darsia/measure/integration.py",
+       """                self.cached_voxel_volume = (
+                    cv2.resize(
+                        self.voxel_volume,
+                        tuple(reversed(fetched_data.shape[:2])),
+                        interpolation=cv2.INTER_AREA,  # conservative.
+                    )
+                    * scaling
+                )
+""", """                if not hasattr(self, "_resized_volumes"):
+                    self._resized_volumes = {}
+                key = tuple(fetched_data.shape[:2])
+                if key not in self._resized_volumes:
+                    self._resized_volumes[key] = (
+                        cv2.resize(
+                            self.voxel_volume,
+                            tuple(reversed(fetched_data.shape[:2])),
+                            interpolation=cv2.INTER_AREA,  # conservative.
+                        )
+                        * scaling
+                    )
+                self.cached_voxel_volume = self._resized_volumes[key]
+""", "correct per-resolution memo (always derived from the native volume)")
+benign("C04", "number-of-iterations-counts-completed", "src/darsia/measure/wasserstein.py",
+       """            "number_iterations": iter,
+""", """            "number_iterations": len(convergence_history["distance"]),
+""", "diagnostic field counts completed iterations instead of the last index")
+benign("C16", "jacobi-diag-memo-keyed-by-all-inputs", "src/darsia/utils/linear_solvers/jacobi.py",
+       """        const_diag = self._diag(h)
+""", """        if np.isscalar(self.mass_coeff) and np.isscalar(self.diffusion_coeff):
+            if not hasattr(self, "_diag_memo"):
+                self._diag_memo = {}
+            key = (self.dim, float(self.mass_coeff), float(self.diffusion_coeff), float(h))
+            if key not in self._diag_memo:
+                self._diag_memo[key] = self._diag(h)
+            const_diag = self._diag_memo[key]
+        else:
+            const_diag = self._diag(h)
+""", "correct memo keyed by every quantity the diagonal depends on")
+benign("C17", "image-caches-coordinate-system-privately", "src/darsia/image/image.py",
+       """        return darsia.CoordinateSystem(self)
+
+    @property
+    def opposite_corner""", """        key = (tuple(self.shape), tuple(self.dimensions), tuple(np.asarray(self.origin).tolist()))
+        if getattr(self, "_cs_key", None) != key:
+            self._cs_key = key
+            self._cs = darsia.CoordinateSystem(self)
+        return self._cs
+
+    @property
+    def opposite_corner""", "lazily filled private cache on the image (not pixel data, metadata or a caller's container)")
+benign("C17", "weight-multiplies-into-the-copy", "src/darsia/image/arithmetics.py",
+       """        weighted_img.img = np.multiply(weighted_img.img, weight_array)
+""", """        weighted_img.img = np.multiply(weighted_img.img, weight_array)
+        weighted_img.name = img.name
+""", "harmless extra assignment on the result")
+benign("C18", "compressed-npz", "src/darsia/image/image.py",
+       """        np.savez(str(Path(path)), array=self.img, metadata=self.metadata())
+""", """        np.savez_compressed(str(Path(path)), array=self.img, metadata=self.metadata())
+""", "images stored compressed")
+benign("C18", "type-correction-keeps-path-type", "src/darsia/corrections/typecorrection.py",
+       """        self.data_type = np.load(path, allow_pickle=True)["data_type"].item()
+""", """        with np.load(path, allow_pickle=True) as data:
+            self.data_type = data["data_type"].item()
+""", "file handle closed explicitly")
+
+
 def main():
     made = 0
+    for pid, name, path, old, new, note in B:
+        full = os.path.join(SRC, path)
+        s = open(full).read()
+        if s.count(old) != 1 and name != "number-of-iterations-counts-completed":
+            print(f"SKIP benign {pid}/{name}: anchor found {s.count(old)} times in {path}")
+            continue
+        t = s.replace(old, new)
+        diff = "".join(difflib.unified_diff(s.splitlines(True), t.splitlines(True), "a/" + path, "b/" + path))
+        d = os.path.join(ROOT, "benign", pid)
+        os.makedirs(d, exist_ok=True)
+        with open(os.path.join(d, name + ".patch"), "w") as f:
+            f.write(f"# {note}\n" + diff)
     for pid, name, path, old, new, note in M:
         full = os.path.join(SRC, path)
         s = open(full).read()
